@@ -62,7 +62,7 @@ func snapshot(v interface{}) string {
 			b.WriteString("&")
 			walk(rv.Elem(), depth+1)
 		case reflect.Slice:
-			fmt.Fprintf(&b, "slice(len=%d,cap=%d)[", rv.Len(), rv.Cap())
+			fmt.Fprintf(&b, "%s(len=%d,cap=%d)[", rv.Type(), rv.Len(), rv.Cap())
 			full := rv
 			if rv.Cap() > rv.Len() {
 				full = rv.Slice(0, rv.Cap())
@@ -85,7 +85,7 @@ func snapshot(v interface{}) string {
 		case reflect.Map:
 			keys := rv.MapKeys()
 			sort.Slice(keys, func(i, j int) bool { return fmt.Sprint(keys[i]) < fmt.Sprint(keys[j]) })
-			fmt.Fprintf(&b, "map(%d){", rv.Len())
+			fmt.Fprintf(&b, "%s(%d){", rv.Type(), rv.Len())
 			for _, k := range keys {
 				fmt.Fprintf(&b, "%v:", k)
 				walk(rv.MapIndex(k), depth+1)
@@ -175,6 +175,9 @@ func c18Ctx(t *rapid.T) Ctx {
 	c.Set("names", ZT(List(Str("n3"), Str("n1"), Str("n2")), "named[]string"))
 	c.Set("nints", ZT(List(mk("ni")...), "named[]int"))
 	c.Set("dict", ZT(Hash([]string{"z", "inner", "a"}, []*E{Int(1), ZT(List(mk("di")...), "named[]iface"), Int(2)}), "namedmap"))
+	// YAML-decoder shape: interface-keyed maps nested in string-keyed maps and lists
+	c.Set("yaml", Hash([]string{"cfg", "items", "n"}, []*E{ZT(Hash([]string{"host", "port"}, []*E{Str("h"), Int(80)}), "map[iface]"),
+		List(ZT(Hash([]string{"k"}, []*E{Int(1)}), "map[iface]"), Int(2)), Int(3)}))
 	c.Set("st", ZT(Hash([]string{"Name", "Tags"}, []*E{Str("nm"), List(Str("t2"), Str("t1"))}), "struct"))
 	c.Set("pst", ZT(Hash([]string{"Name", "Tags"}, []*E{Str("pn"), List(Str("q2"), Str("q1"))}), "ptrstruct"))
 	return c
@@ -221,7 +224,7 @@ func genC18(t *rapid.T) (C18Case, []string) {
 	np := rapid.IntRange(1, 4).Draw(t, "nparts")
 	for i := 0; i < np; i++ {
 		coll := rapid.SampledFrom(c18Colls).Draw(t, "coll")
-		switch rapid.IntRange(0, 10).Draw(t, "form") {
+		switch rapid.IntRange(0, 11).Draw(t, "form") {
 		case 0, 1, 2:
 			parts = append(parts, "{{ "+c18Chain(t, coll)+"|"+rapid.SampledFrom(c18Ends).Draw(t, "end")+" }}")
 			cl = append(cl, "filter-chain")
@@ -248,6 +251,9 @@ func genC18(t *rapid.T) (C18Case, []string) {
 			mp := rapid.SampledFrom([]string{"m", "nest", "m_alias"}).Draw(t, "importalias")
 			parts = append(parts, "{{ "+mp+"|keys|join(',') }}{% import 'lib' as "+mp+" %}{{ "+mp+".tag(1) }}")
 			cl = append(cl, "import-alias-collides-with-context-map")
+		case 11:
+			parts = append(parts, "{{ yaml|json_encode }}{{ json_encode(yaml.items) }}{{ yaml.cfg.host }}{{ yaml|keys|join }}{{ yaml.items|length }}{% for k, v in yaml %}{{ k }}{% endfor %}")
+			cl = append(cl, "yaml-shaped-data")
 		default:
 			parts = append(parts, "{{ merge("+coll+", ys)|sort|join(',') }}{{ max("+coll+") }}{{ cycle("+coll+", 1) }}{{ range(1, 3)|merge("+coll+")|join(',') }}")
 			cl = append(cl, "functions")
